@@ -45,6 +45,7 @@ MIN_REACH = {
     "redundant_growers_that_found_the_crop_gone": {"quick": 30, "thorough": 600},
     "schedules_with_megabyte_results": {"quick": 9, "thorough": 40},
     "schedules_with_batches_of_120_settings": {"quick": 25, "thorough": 200},
+    "reaps_whose_wait_flag_is_1_or_a_numpy_bool": {"quick": 300, "thorough": 5000},
     "waiting_reaps_that_would_accept_an_incomplete_crop": {"quick": 200, "thorough": 3000},
 }
 TIME_BUDGET = {"quick": 400, "thorough": 3400}
@@ -199,6 +200,9 @@ class World(object):
             if cfg.endswith("_waitinc"):
                 crop.grow(1)
         self.waitinc = cfg.endswith("_waitinc")
+        # the wait flag as True, as the int 1 (an argparse flag) or as a numpy bool (the result of a comparison)
+        import numpy as _np
+        self.wait_flag = [True, 1, _np.True_][(len(cfg) + len(kind)) % 3]
         self.B = crop.num_batches
         self.w = {"mode": "grid", "combos": [["a", list(range(1, self.n + 1))]], "names": None, "cases": None}
         self.same_batch_twice = len(set(self.growers)) < len(self.growers)
@@ -297,8 +301,8 @@ def run_schedule(world, chooser):
     def reaper():
         crop = xyzpy.Crop(name=NAME, parent_dir=root)
         if world.waitinc:
-            return crop.reap(wait=True, allow_incomplete=True)
-        return crop.reap(wait=True, clean_up=False if ((world.same_batch_twice and not world.cleanup) or world.polls) else None)
+            return crop.reap(wait=world.wait_flag, allow_incomplete=True)
+        return crop.reap(wait=world.wait_flag, clean_up=False if ((world.same_batch_twice and not world.cleanup) or world.polls) else None)
 
     def poller():
         crop = xyzpy.Crop(name=NAME, parent_dir=root)
@@ -363,6 +367,8 @@ def judge(ctx, world, obs, case, extra_sig):
             nv += 1
     if world.reaper and S.actors["reaper"].outcome[0] == "ok":
         ctx.count("reaps_checked")
+        if world.wait_flag is not True:
+            ctx.count("reaps_whose_wait_flag_is_1_or_a_numpy_bool")
         if world.waitinc:
             ctx.count("waiting_reaps_that_would_accept_an_incomplete_crop")
         d, _ = cropkit.compare_nest(S.actors["reaper"].outcome[1], world.w, {}, world.kind)
